@@ -240,6 +240,17 @@ func (c *Core) handler(route int) gldap.HandlerFunc {
 			}
 		}
 		if sc.Panic {
+			// what a handler may panic with: a string, an error, a runtime
+			// error, any other value
+			switch id % 4 {
+			case 1:
+				panic(fmt.Errorf("sim: scripted handler panic (m=%d)", id))
+			case 2:
+				var m map[int64]int
+				m[id] = 1 // assignment to entry in nil map
+			case 3:
+				panic(struct{ M int64 }{id})
+			}
 			panic(fmt.Sprintf("sim: scripted handler panic (m=%d)", id))
 		}
 		var reuse *ctrlReuse
